@@ -59,6 +59,10 @@ func TestVerifC06(t *testing.T) {
 		if h.Thorough() && r.IntN(200) == 0 {
 			oL = 1<<24 - 1 - r.IntN(3)
 		}
+		if r.IntN(100) == 0 {
+			aL = 1<<24 - r.IntN(3) // the argument fills the input zone exactly (ZI), or lacks one or two octets
+			h.Inc("layouts_with_an_argument_of_about_the_input_zone_size")
+		}
 		z := zs[r.IntN(len(zs))]
 		if h.Thorough() && r.IntN(300) == 0 {
 			z = 65535
